@@ -10,7 +10,9 @@
   such reads together with a failing read, a failing write or a `Close()` that lands in the
   middle of the drain they cause — before the reads are taken, before the `_ProcessReply`
   greenlets of their frames run, or after those ran and before the greenlets they woke resume,
-  `race` / timeout with the outcome of the re-connect / ping due / ping silence / close), of any
+  `race` / timeout with the outcome of the re-connect — concluding at once, or, serial transport,
+  taking time: `timeoutBlock` … any operations in between … `reconn r` — / ping due / ping
+  silence / close), of any
   length, subject only to the hypotheses `comp.wf` spells out (an I/O outcome needs a greenlet
   blocked in that I/O call; request ids are fresh; for the mux transport see Adapter/MuxT.lean).
   The per-step theorems hold in every state satisfying the invariant `Inv`, which
@@ -35,8 +37,10 @@ open Scales.Transport
 
 /-! ## serial framed transport (scales/thrift/sink.py) -/
 
-/-- the invariant (socket connected ⇔ `_state` Open; Open ⇒ open result kept; transaction in
-    flight ⇒ socket connected) holds in every reachable state, whatever the operations -/
+/-- the invariant (socket connected ⇒ `_state` Open; Open ⇒ open result kept; transaction in
+    flight ⇒ `_state` Open, and its socket is connected unless it is blocked in the re-connect of
+    its time-out handler; `_state` Open without a connected socket ⇒ a transaction is in flight)
+    holds in every reachable state, whatever the operations -/
 theorem C08_serial_inv_reachable (ops : List Serial.Op) :
     Serial.Inv (Serial.runOps Serial.St.init ops) :=
   Serial.inv_reachable ops
@@ -85,12 +89,82 @@ theorem C08_serial_closed_and_signalled (s : Serial.St) (op : Serial.Op) (hinv :
     reached the peer (true after the repair of F4: before it a refused re-connect left the
     transport `open` with `_processing` set for ever). -/
 theorem C08_serial_open_idle_carries (s : Serial.St) (id : Nat) (dl : Serial.DL) (hinv : Serial.Inv s)
-    (hopen : s.state = .opened) (hidle : s.processing = none) (hdl : ∀ c, dl ≠ .past c) :
+    (hopen : s.state = .opened) (hidle : s.processing = none) (hdl : dl = .none ∨ dl = .future) :
     (s.request id dl).2.eff.dels = [] ∧
     (∃ b, (s.request id dl).1.processing = some ⟨id, b, .write⟩) ∧
     (s.request id dl).1.state = .opened ∧
     ((s.request id dl).1.io .ok).2.sent = [id] :=
   Serial.open_idle_carries s id dl hinv hopen hidle hdl
+
+/-- a transport that reports `open` with no transaction in flight has a connected socket: the
+    state "`_state` Open, no socket handle" only exists while `_processing` is set (the time-out
+    handler blocked in its re-connect) -/
+theorem C08_serial_open_idle_connected (s : Serial.St) (hinv : Serial.Inv s)
+    (hopen : s.state = .opened) (hidle : s.processing = none) : s.sockOpen = true :=
+  Serial.open_idle_connected s hinv hopen hidle
+
+/-- **in every reachable state** — whatever the operations, no hypothesis on them; also between
+    the two halves of a re-connect that takes time — a transport that reports `open` with no
+    transaction in flight has a connected socket and carries the next request: the request is
+    not answered on the spot, its transaction blocks in the write, and when that write succeeds
+    the request's frame is what reached the peer -/
+theorem C08_serial_reachable_open_idle_carries (ops : List Serial.Op) (id : Nat) (dl : Serial.DL)
+    (hopen : (Serial.runOps Serial.St.init ops).state = .opened)
+    (hidle : (Serial.runOps Serial.St.init ops).processing = none)
+    (hdl : dl = .none ∨ dl = .future) :
+    (Serial.runOps Serial.St.init ops).sockOpen = true ∧
+    ((Serial.runOps Serial.St.init ops).request id dl).2.eff.dels = [] ∧
+    (∃ b, ((Serial.runOps Serial.St.init ops).request id dl).1.processing = some ⟨id, b, .write⟩) ∧
+    (((Serial.runOps Serial.St.init ops).request id dl).1.io .ok).2.sent = [id] :=
+  Serial.reachable_open_idle_carries ops id dl hopen hidle hdl
+
+/-- **every observation of every history** (no hypothesis on the operations): whenever the
+    transport reports `open` and not busy (`_processing` clear) its socket is connected — also in
+    the observations taken while a re-connect is in progress, where it reports busy -/
+theorem C08_serial_observed_open_idle_connected (ops : List Serial.Op) :
+    ∀ p ∈ Serial.comp.modelTrace () ops,
+      p.2.state = .opened → p.2.busy = false → p.2.sock = true :=
+  Serial.observed_open_idle_connected ops
+
+/-- the deadline of the transaction in flight passes and the re-connect takes time: the
+    operation hands out nothing, raises nothing, the transaction stays in flight (`_processing`
+    set) blocked in the re-connect; the transport still reports `open`, its socket is not
+    connected — the request gets its TimeoutError when the re-connect has concluded
+    (`C08_serial_reconnect_window`) -/
+theorem C08_serial_timeout_block_defers (s : Serial.St) (t : Serial.Txn) (hinv : Serial.Inv s)
+    (hp : s.processing = some t) (hd : t.hasDl = true) (hph : t.phase ≠ .reconn) :
+    (s.timeoutBlock).2 = {} ∧
+    (s.timeoutBlock).1.processing = some { t with phase := .reconn } ∧
+    (s.timeoutBlock).1.state = .opened ∧ (s.timeoutBlock).1.sockOpen = false :=
+  Serial.timeout_block_defers s t hinv hp hd hph
+
+/-- **the window.**  While the time-out handler of transaction `t` is blocked in its re-connect
+    the transport reports `open` but is *not idle* (`_processing` is set), and
+    * whatever else is attempted changes nothing: a request is rejected with the concurrency
+      error (it is never started on the socket that is not there), `Open()`, an I/O outcome or a
+      second time-out find nothing to do;
+    * when the re-connect is accepted the transaction is handed its one TimeoutError, nothing
+      is raised, `_processing` is clear and the socket is connected: the transport is `open`,
+      idle and carries the next request;
+    * when it is refused the transaction is handed its one TimeoutError, the fault signal is
+      raised once, the transport reports `closed` and `_processing` is clear;
+    * `Close()` leaves a closed transport with nothing in flight. -/
+theorem C08_serial_reconnect_window (s : Serial.St) (t : Serial.Txn) (hinv : Serial.Inv s)
+    (hp : s.processing = some t) (hph : t.phase = .reconn) :
+    (s.state = .opened ∧ s.sockOpen = false) ∧
+    (∀ id dl, s.request id dl = (s, { eff := { dels := [(id, .conc)] } })) ∧
+    (∀ r, s.openT r = (s, {})) ∧ (∀ o, s.io o = (s, {})) ∧ (∀ r, s.timeoutHere r = (s, {})) ∧
+    s.timeoutBlock = (s, {}) ∧
+    ((s.reconnDone .ok).2 = { eff := { faults := 0, dels := [(t.id, .timeout)], conns := 1 } } ∧
+      (s.reconnDone .ok).1.state = .opened ∧ (s.reconnDone .ok).1.processing = none ∧
+      (s.reconnDone .ok).1.sockOpen = true ∧
+      ∀ id dl, dl = .none ∨ dl = .future →
+        ((s.reconnDone .ok).1.request id dl).2.eff.dels = [] ∧
+        ((((s.reconnDone .ok).1.request id dl).1.io .ok).2.sent = [id])) ∧
+    ((s.reconnDone .refuse).2 = { eff := { faults := 1, dels := [(t.id, .timeout)], conns := 1 } } ∧
+      (s.reconnDone .refuse).1.state = .closed ∧ (s.reconnDone .refuse).1.processing = none) ∧
+    (s.close.state = .closed ∧ s.close.processing = none) :=
+  Serial.reconnect_window s t hinv hp hph
 
 /-- **serial transport, specification level.**  For every operation list satisfying the
     hypotheses, the history of the model satisfies the executable specification that the
@@ -462,6 +536,19 @@ example : connFailure (runOps St.init [.openT .ok, .req 1 .future, .io .ok]) (.t
   decide
 example : (stepOut (runOps St.init [.openT .ok, .req 1 .future, .io .ok]) (.timeoutHere .refuse)).2.eff
     = { faults := 1, dels := [(1, .timeout)], conns := 1 } := by decide
+-- the re-connect as a yield point: a request and a Close() in the window, both ways it can end
+example : comp.wf () [.openT .ok, .req 1 .future, .io .ok, .timeoutBlock, .look, .req 2 .none, .reconn .ok,
+    .req 3 .none, .io .ok, .io .ok, .io .ok, .req 4 .pastBlock, .req 5 .future, .reconn .refuse, .openT .ok, .req 6 .future,
+    .timeoutBlock, .close, .openT .ok] = true := by decide
+example : (comp.modelTrace () [.openT .ok, .req 1 .future, .io .ok, .timeoutBlock, .req 2 .none, .reconn .ok]).map
+    (fun p => (p.2.state, p.2.busy, p.2.dels, p.2.sock)) =
+    [(.opened, false, [], true), (.opened, true, [], true), (.opened, true, [], true),
+     (.opened, true, [], false), (.opened, true, [(2, .conc)], false),
+     (.opened, false, [(1, .timeout)], true)] := by decide
+example : ∃ t, (runOps St.init [.openT .ok, .req 1 .future, .io .ok, .timeoutBlock]).processing = some t ∧
+    t.phase = .reconn := ⟨_, rfl, rfl⟩
+example : connFailure (runOps St.init [.openT .ok, .req 1 .future, .io .ok, .timeoutBlock]) (.reconn .refuse) = true := by
+  decide
 end
 
 section
